@@ -183,7 +183,11 @@ pub fn check(obs: &Obs, out: &mut CaseOut) -> Summary {
     if let Some(Err(e)) = &obs.agent_result {
         // Expected failures: the scripted failure of the agent's own task, and the runtime giving up
         // after the store refused an operation (fault injection).
-        let expected = (plan.ending == Ending::Return(false) && error_class(e) == "agent-task") || (!obs.refused.is_empty() && error_class(e) == "persistence");
+        let expected = (plan.ending == Ending::Return(false) && error_class(e) == "agent-task")
+            || (!obs.refused.is_empty() && error_class(e) == "persistence")
+            // a lane whose stored state cannot be read must not come up: the runtime gives up (during
+            // initialisation: restoration / agent initialisation failure)
+            || (!obs.read_refused.is_empty() && matches!(error_class(e), "restoration" | "agent-init" | "persistence" | "other"));
         if !expected {
             out.violation(
                 PROP,
@@ -506,7 +510,7 @@ pub fn check(obs: &Obs, out: &mut CaseOut) -> Summary {
         if let Some((t, e)) = &rec.reg_error {
             // A registration that races with the end of the incarnation may fail; so does one that
             // comes after the runtime gave up because the store refused an operation.
-            let runtime_gave_up = obs.refused.first().map_or(false, |(rt, _)| rt < t);
+            let runtime_gave_up = obs.refused.first().map_or(false, |(rt, _)| rt < t) || obs.read_refused.first().map_or(false, |(rt, _)| rt < t);
             if *t < obs.ending_at && !runtime_gave_up && obs.agent_result.as_ref().map_or(true, |r| r.is_ok()) {
                 out.violation(
                     PROP,
